@@ -235,7 +235,12 @@ func matchKnown(known []KnownFinding, id string, o *Obligation) *KnownFinding {
 		if k.Status != "known" || k.Property != id {
 			continue
 		}
-		if k.Rule == o.Rule && k.Key == o.Key {
+		key := o.Key
+		// obligations re-evaluated on a secondary architecture carry a " [arch]" suffix: same construct, same finding
+		if i := strings.LastIndex(key, " ["); i >= 0 && strings.HasSuffix(key, "]") {
+			key = key[:i]
+		}
+		if k.Rule == o.Rule && (k.Key == o.Key || k.Key == key) {
 			return k
 		}
 	}
@@ -287,7 +292,8 @@ func (c *Check) writeEvidence(nOK, nFail, nKnown, nAdv int, perRule map[string][
 		"functions_in_ssa":  nfn,
 		"goarch":            archOf(c.P),
 		"checker_cmd":       fmt.Sprintf("bin/gsverif check %s --tier %s", c.ID, c.Tier),
-		"positive_controls": c.Controls,
+		"anti_vacuity":      "every rule has a floor on the number of constructs it must match (listed under rule_floors); a rule below its floor is reported undecided (failure). The seeded-change corpus (/verif/seeded, DESIGN.md 8.6) is the positive test and is run by tools/seed_matrix.sh, not on every check run.",
+		"rule_floors":       c.Expects,
 		"trusted_base": []string{"go/types and go/ssa of golang.org/x/tools v0.29.0", "VTA call graph (x/tools)",
 			"reference tables compiled into the checker (Linux ABI, README status table)", "the Linux kernel honours each syscall"},
 		"exhaustive": true,
